@@ -138,3 +138,11 @@ m("C01-iterm2-whole-height-minus-1", "C01", "image/iterm2.py", "                
 m("C05-revert-format-render-fix", "C05", "image/common.py", "top = f\"{' ' * max(width, cols)}\\n\" * top", "top = f\"{' ' * width}\\n\" * top")
 m("C05-format-render-center-right", "C05", "image/common.py", "                right = \" \" * (width - cols - len(left))", "                right = \" \" * ((width - cols) // 2)")
 m("C05-format-render-bottom-align", "C05", "image/common.py", "            elif v_align == \"_\":  # bottom\n                top = height - lines\n                bottom = 0", "            elif v_align == \"_\":  # bottom\n                top = height - lines - 1\n                bottom = 1")
+# ---- _get_render_data
+m("C02-blend-skipped-for-zero-threshold", "C02", "image/common.py", "                if round_alpha:\n                    bg = Image.new(", "                if round_alpha and alpha:\n                    bg = Image.new(")
+m("C02-threshold-le", "C02", "image/common.py", "a = [0 if val < alpha else 255 for val in a]", "a = [0 if val <= alpha else 255 for val in a]")
+m("C02-composite-then-convert-swapped", "C02", "image/common.py", "                bg.alpha_composite(img)\n                if frame_img is not img:\n                    self._close_image(img)\n                img = bg.convert(\"RGB\")", "                if frame_img is not img:\n                    self._close_image(img)\n                img = bg.convert(\"RGB\")")
+m("C02-resize-when-equal", "C02", "image/common.py", "            if img.size != size:\n                prev_img = img", "            if True:\n                prev_img = img")
+m("C11-prev-img-close-inverted", "C11", "image/common.py", "                finally:\n                    if frame_img is not prev_img:\n                        self._close_image(prev_img)\n\n            if img.size != size:", "                finally:\n                    if frame_img is prev_img:\n                        self._close_image(prev_img)\n\n            if img.size != size:")
+m("C11-close-image-closes-source", "C11", "image/common.py", "        if img is not self._source:\n            img.close()", "        img.close()")
+m("C02-opaque-modes-missing-L", "C02", "image/common.py", 'if alpha is None or img.mode in {"1", "L", "RGB", "HSV", "CMYK"}:\n            convert_resize_img("RGB")', 'if alpha is None or img.mode in {"1", "RGB", "HSV", "CMYK"}:\n            convert_resize_img("RGB")')
